@@ -84,7 +84,7 @@ public:
       E.seedWellKnownExceptions();
       F.TraverseDecl(ctx.getTranslationUnitDecl());
       for (auto& t : Targets) if (!hits.count(t)) { llvm::errs() << "CXX2C ABORT: target '" << t << "' matches no function definition (renamed or removed?)\n"; exit(2); }
-      while (!E.work.empty()) { auto* f = E.work.front(); E.work.pop_front(); E.emitFunction(f); }
+      while (!E.work.empty() || !E.vwork.empty()) { if (!E.work.empty()) { auto* f = E.work.front(); E.work.pop_front(); E.emitFunction(f); } else { auto* f = E.vwork.front(); E.vwork.pop_front(); E.emitFunction(f, true); } }
     } catch (Abort& a) { llvm::errs() << "CXX2C ABORT: " << a.msg << "\n"; exit(2); }
     for (auto& r : E.outlineReq) { bool found = false; for (auto& fi : E.fnInfos) if (fi.cname.find(r.first) != std::string::npos && (int)fi.loops.size() >= r.second) found = true; if (!found) { llvm::errs() << "CXX2C ABORT: --outline " << r.first << ":" << r.second << " matches no loop\n"; exit(2); } }
     {
